@@ -110,7 +110,21 @@ def units():
             U.append(kunit(law, "%s2%s_array" % (law, h), "%sunsigned char *buffer, int count, %s *ptr, %s normfact" % (cq, CT[h], CT[h]),
                            "buffer", "ptr", "unsigned char", CT[h], "ptr [K] == normfact * %s" % dec, ["C02", "C19"],
                            "C02.float_read_is_decoded_value_times_normfact", extra_req="__CPROVER_requires (normfact > 0 && normfact <= 1)",
-                           decl="\t%s normfact ;" % CT[h], callargs="a, count, b, normfact", backend="kissat", timeout=900, src_q=cq))
+                           decl="\t%s normfact ;" % CT[h], callargs="a, count, b, normfact", backend="kissat", timeout=3600, src_q=cq,
+                           tier="thorough"))
+            # quick tier: the same rule for one symbolic element (plain harness, cvc5); the loop unit above is thorough
+            U.append({"name": "%s.%s2%s_array.elem" % (law, law, h), "props": ["C02"], "template": "units/gen_g711.py",
+                      "harness_text": HEAD % dict(law=law) + """
+void h_unit (void)
+{	unsigned char buffer [1] ; %(T)s ptr [1] ; %(T)s normfact ; unsigned char nd ;
+	buffer [0] = nd ;
+	__CPROVER_assume (normfact > 0 && normfact <= 1) ;
+	%(law)s2%(h)s_array (buffer, 1, ptr, normfact) ;
+	__CPROVER_assert (ptr [0] == normfact * %(law)s_decode [(int) buffer [0]], "float read is the decoded value times normfact") ; /*@C02.float_read_is_decoded_value_times_normfact*/
+	CANARY () ;
+}
+""" % dict(law=law, h=h, T=CT[h]), "entry": "h_unit", "dfcc": False, "function": "%s.c:%s2%s_array" % (law, law, h),
+                      "backend": "cvc5", "cbmc_flags": ["--unwind", "2"], "drop_flags": ["--slice-formula"], "timeout": 300, "tier": "quick"})
         # encoders
         U.append(kunit(law, "s2%s_array" % law, "const short *ptr, int count, unsigned char *buffer", "ptr", "buffer", "short", "unsigned char",
                        "buffer [K] == %s" % enc_elem(law, "(int) ptr [K]"), ["C20", "C02", "C19"], "C20.encoder_element_function",
